@@ -24,6 +24,7 @@ type Tape struct {
 	Refuse  int                        `json:"refuse,omitempty"`       // kpasswd: result code with which the server refuses by policy
 	KDCForm string                     `json:"kdc_form,omitempty"`     // how krb5.conf names the KDCs: "" = ipv4:port | v4-noport | v6-port | v6-noport | v6-bare-noport
 	Split   string                     `json:"split_realms,omitempty"` // the realm's KDCs are configured in two blocks of the same name: block | section
+	ErrSName string                    `json:"error_sname,omitempty"`  // refkdc.Policy.ErrorSName: form of the sname in the KDCs' KRB-ERRORs
 	BigTkt  int                        `json:"big_ticket,omitempty"`   // tickets carry this many bytes of authorization data: replies beyond the classic UDP sizes
 }
 
@@ -150,6 +151,9 @@ func Gen(caseID, tier string) (json.RawMessage, error) {
 	}
 	if tp.NKDC > 1 && r.Chance(1, 6) {
 		tp.Split = r.Pick("block", "section")
+	}
+	if r.Chance(1, 3) {
+		tp.ErrSName = r.Pick("empty", "empty", "krbtgt")
 	}
 	if tp.Phase != "kpasswd" && r.Chance(1, 6) {
 		// a correct answer may be a large datagram (a ticket with a long PAC): up to 64 KiB fit
